@@ -156,6 +156,24 @@ PROPS["C09"] = {
 C01_INJECT = ST_ALL + [("emulator-2a-lib/src/machine/raw/mod.rs", "c01_isa.rs", "verif_isa"),
                        ("emulator-2a-lib/src/machine/raw/mod.rs", "c01_triples.rs", "verif_c01")]
 
+C01_QUICK_CORE = ["c01_nop", "c01_clr", "c01_ei", "c01_push", "c01_pop", "c01_popf", "c01_jr_b0_taken", "c01_jr_b1_not", "c01_call", "c01_reti",
+                  "c01_neg", "c01_asr", "c01_rrc", "c01_inc", "c01_dec", "c01_add_s1", "c01_adc_s2", "c01_sub_s0", "c01_and_s3", "c01_or_s1", "c01_xor_s2",
+                  "c01_stop", "c01_fetch_words_identical", "c01_src_reg", "c01_src_dinc", "c01_mov_ind", "c01_mov_dinc", "c01_cmp_inc", "c01_bitt_reg",
+                  "c01_ldsp", "c01_ldfr", "c01_bits_ind", "c01_bitc_inc", "c01_reset_reaches_boundary", "c01_canary",
+                  "c01_mul_entry", "c01_mul_iter", "c01_mul_exit", "c01_div_entry", "c01_div_iter", "c01_div_exit"]
+
+
+def _select_c01(allh, tier, seed):
+    """quick: one triple per micro-routine family plus a seed-chosen rotating sample of the rest; thorough: all."""
+    if tier != "quick":
+        return allh
+    import random
+    core = [h for h in allh if h in C01_QUICK_CORE]
+    rest = [h for h in allh if h not in C01_QUICK_CORE and not h.startswith("gen_")]
+    random.Random(seed).shuffle(rest)
+    return core + rest[:6]
+
+
 def _pregen_c01(stage, native_run):
     import os
     out = native_run(stage, "verif_replay_c01", "gen_c01_paths")
@@ -178,12 +196,16 @@ def _pregen_c01(stage, native_run):
 PROPS["C01"] = {
     "inject": C01_INJECT,
     "pregen": _pregen_c01,
+    "groups": [{"match": "fetch_words_identical", "flags": []},
+               {"match": ".*", "flags": ["-Z", "stubbing", "--no-memory-safety-checks", "--no-overflow-checks"]}],
+    "select": lambda allh, tier, seed: _select_c01(allh, tier, seed),
     "functions": ["RawMachine::trigger_clock_edge (all seven pipeline stages)", "AluOutput::from_input", "Bus::read / Bus::write", "Signals::*", "MicroprogramRam::CONTENT"],
     "timeout": 900,
     "technique": "Hoare triples per instruction form on the real clock-edge function with all data symbolic (register field symbolic, routine-selecting opcode bits fixed), boundary predicate as inductive invariant; loop invariants for MUL/DIV; Kani/CBMC",
     "level_text": "Proof per instruction form: from every boundary state with that opcode (all registers incl. scratch, flags, PC, SP, RAM, I/O symbolic) the real micro-path re-establishes the boundary with exactly the ISA reference's view and nothing else changed; sequences follow by induction over boundaries.",
     "level_note": "Trusted: Kani/CBMC, rustc, my ISA reference (isa_exec: flag rules beyond the statement transcribed from the microprogram listing). Supervision events on the path are excluded (C05). Two-byte forms are cut at the second-opcode fetch (source-phase and destination-phase triples compose).",
     "samples": [{"obligation": "C01.SUB.view", "text": "{B & opcode=0x8s|d} path {B' & Rd'=Rd-Rs & C'=borrow & Z',N' & rest unchanged}", "domain": "all registers, flags, PC, SP, 240 RAM bytes symbolic; d symbolic, s per harness"}],
-    "trusted": [],
+    "trusted": ["kani::stub stand-ins for Board::set_digital_output1/2 and Board::get_fan_period inside the instruction triples (uninterpreted-board abstraction; real behaviour = C14)",
+                "the wait-consuming clock edge is used through its contract C05.E.wait / C15.E.wait (proved on the real function)"],
     "assumptions": ["WLOG boundary word 0x006 (all fetch words proved identical)", "no pending key interrupt during the triple (interrupt entry is C04's triple)"],
 }
